@@ -43,6 +43,41 @@ def expand_hl(s):
     return out
 
 
+
+def attribute(cin, items):
+    """pair the complete input lines of one client with the reply lines they caused.
+    A 208 answers the next unread input line on the spot; any other line belongs to the command in progress, which
+    is the next unread input line when none is in progress; a terminal line (other than 208) ends the command.
+    Returns list of (input line, [reply items], complete?)."""
+    lines = cin.split(b'\n')[:-1]
+    out = []; k = 0; cur = None
+    for it in items:
+        if it[0] != 'line' or it[1] == 1: continue
+        if it[1] == 208:
+            if cur is None:          # a command is in progress that has produced no line yet: the next unread line
+                if k >= len(lines): break
+                cur = (lines[k], []); k += 1
+            if k < len(lines): out.append((lines[k], [it], True)); k += 1
+            continue
+        if cur is None:
+            if k >= len(lines): break
+            cur = (lines[k], []); k += 1
+        cur[1].append(it)
+        if 100 <= it[1] < 300:
+            out.append((cur[0], cur[1], True)); cur = None
+    if cur is not None: out.append((cur[0], cur[1], False))
+    return out
+
+
+def parse_req(ln):
+    s = ln.split(b'\0')[0].strip()
+    m = re.match(rb'^(on|off|cycle|reset|flash|unflash|status|temp|beacon)\s+(\S+)$', s, re.I)
+    if not m: return None
+    try: targets = expand_hl(m.group(2))
+    except Exception: return None
+    return m.group(1).lower(), targets, s
+
+
 class ClientView:
     """per client connection: bytes the daemon read, bytes it wrote, lines and requests"""
 
@@ -195,8 +230,11 @@ def p_c01(tr, V, st):
                     node = plugs.get(pl)
                     if node is None or not any(node in names for names in cand):
                         V.append(dict(sig='C01 plug commanded that no pending request names', at=p.i, dev=di, plug=repr(pl), line=repr(ln)))
-        # drop finished requests after the pass
+        # a request is over when its client has no command and no device queue holds one of its actions
+        # (a departed client's actions stay queued and are still run: C11)
         live = {c['id'] for c in p.clients.values() if c['pending'] > 0}
+        for d in p.devs.values():
+            for (com, cid) in d.get('queue', []): live.add(cid)
         for cid in list(pend):
             if cid not in live: del pend[cid]
 
@@ -244,29 +282,20 @@ def p_c02_c03(tr, V, st):
     device during this query; temp: every target exactly once"""
     # full stream per client = written bytes + queue at the last dump in which the client existed
     cv = client_views(tr)
-    lastto = {}
-    for p in tr:
-        for fd, c in p.clients.items(): lastto[fd] = c['to']
+    # output still queued at the end of the run (only for clients alive in the last pass: what a departed client had queued
+    # was either written in its last pass, and is in cout, or is lost)
+    lastto = {fd: c['to'] for fd, c in tr[-1].clients.items()} if tr else {}
     cin = {fd: v.cin for fd, v in cv.items()}
     # walk per client: input lines in order ↔ replies in order
     for fd, v in cv.items():
         full = v.cout + lastto.get(fd, b'') if fd in lastto else v.cout
         items, tail = split_out(full)
-        # group into replies: each group ends with a terminal line
-        groups = []; g = []
-        for it in items:
-            if it[0] != 'line': continue
-            if it[1] == 1: continue
-            g.append(it)
-            if 100 <= it[1] < 300:
-                groups.append(g); g = []
-        lines = [l for l in v.cin.split(b'\n')[:-1]]
-        for ln, g in zip(lines, groups):
-            s = ln.split(b'\0')[0].strip()
+        for ln, g, complete in attribute(v.cin, items):
+            if not complete: continue
+            rq = parse_req(ln)
             code = g[-1][1]
-            m = re.match(rb'^(on|off|cycle|reset|flash|unflash|status|temp|beacon)\s+(\S+)$', s, re.I)
-            if not m or code in (201, 203, 205, 208, 209, 213): continue
-            verb = m.group(1).lower(); targets = expand_hl(m.group(2))
+            if rq is None or code in (201, 203, 205, 208, 209, 213): continue
+            verb, targets, s = rq
             infos = [it for it in g[:-1]]
             if verb in (b'on', b'off', b'cycle', b'reset', b'flash', b'unflash'):
                 st['C02 power replies'] += 1
@@ -291,7 +320,9 @@ def p_c02_c03(tr, V, st):
                     n, _, val = it[2].partition(b': ')
                     shown[n] += 1; cls[n] = val.strip()
                 tset = collections.Counter(set(targets))
-                if set(shown) != set(targets) or any(c != 1 for c in shown.values()):
+                # as sets: every target in exactly one class (a target typed twice is listed twice, in the same class)
+                multi = [n for n in shown if shown[n] != targets.count(n)]
+                if set(shown) != set(targets) or multi:
                     V.append(dict(sig='C03 reply does not partition the target set', fd=fd, line=repr(s), shown=repr(sorted(shown.items()))[:300]))
                 has308 = any(it[1] == 308 for it in infos)
                 if (code == 211) != has308: V.append(dict(sig='C03 terminal code disagrees with reported device failures', fd=fd, line=repr(s), code=code))
@@ -334,34 +365,20 @@ def p_c11(tr, V, st):
     """lines delivered to a client concern its own request: 303/309 node names and 302 lists within its target set,
     305 only with telemetry on; 208 only while a command is pending"""
     cv = client_views(tr)
-    lastto = {}
-    for p in tr:
-        for fd, c in p.clients.items(): lastto[fd] = c['to']
+    # output still queued at the end of the run (only for clients alive in the last pass: what a departed client had queued
+    # was either written in its last pass, and is in cout, or is lost)
+    lastto = {fd: c['to'] for fd, c in tr[-1].clients.items()} if tr else {}
     for fd, v in cv.items():
         full = v.cout + lastto.get(fd, b'')
         items, _ = split_out(full)
-        groups = []; g = []
-        for it in items:
-            if it[0] != 'line' or it[1] == 1: continue
-            g.append(it)
-            if 100 <= it[1] < 300 and it[1] != 208:
-                groups.append(g); g = []
-        lines = []
-        for l in v.cin.split(b'\n')[:-1]: lines.append(l)
-        # 208 answers consume input lines too: walk input lines, assigning 208s
-        gi = 0
-        k = 0
-        for g in groups:
-            n208 = sum(1 for it in g if it[1] == 208)
-            if k >= len(lines): break
-            ln = lines[k]; k += 1 + n208
-            s = ln.split(b'\0')[0].strip()
-            m = re.match(rb'^(on|off|cycle|reset|flash|unflash|status|temp|beacon)\s+(\S+)$', s, re.I)
-            if not m: continue
-            try: targets = set(expand_hl(m.group(2)))
-            except Exception: continue
+        for ln, g, complete in attribute(v.cin, items):
+            rq = parse_req(ln)
+            if rq is None or not g or g[-1][1] == 208: continue
+            verb, tl, s = rq
+            targets = set(tl)
+            if complete: g = g[:-1] + [g[-1]]
             st['C11 replies attributed'] += 1
-            for it in g[:-1]:
+            for it in g:
                 if it[1] == 303:
                     n = it[2].partition(b': ')[0]
                     for x in (expand_hl(n) if b'[' in n else [n]):
@@ -392,23 +409,26 @@ def p_c12(tr, V, st):
     last = {}
     prevq = {}
     for p in tr:
-        attempts = [l for l in p.sys if l[0] in ('socket', 'socketpair')]
-        # which device? sockets are tcp (dev 0), socketpairs the coprocess (dev 1) in mixp
-        for l in attempts:
-            di = 0 if l[0] == 'socket' else 1
+        # a client enqueue on a device that is not connected expedites its retries (retry_count := 0); it happens in
+        # cli_post_poll, i.e. before this pass's connection attempts
+        for di, d in p.devs.items():
+            q = [a for a in d.get('queue', []) if a[1] != 0]
+            old = [a for a in prevq.get(di, []) if a[1] != 0]
+            grew = len(q) > len(old) or any(a not in old for a in q)
+            if grew and di in last: last[di] = (last[di][0], True)
+        # a request may be enqueued and failed within one pass (queue emptied by a time-out): any pass in which a client
+        # line was read counts as 'client request present'
+        if any(fd < 2000 and n > 0 for fd, n in p.reads.items()):
+            for di in list(last): last[di] = (last[di][0], True)
+            prevq[di] = d.get('queue', [])
+        for l in [l for l in p.sys if l[0] in ('socket', 'socketpair')]:
+            di = 0 if l[0] == 'socket' else 1      # mixp: the tcp device is 0, the coprocess 1
             st['C12 connection attempts'] += 1
             if di in last:
                 t0, expedited = last[di]
                 if not expedited and p.now - t0 < 1000000:
                     V.append(dict(sig='C12 reconnect attempts closer than the back-off allows', at=p.i, dev=di, gap_us=p.now - t0))
             last[di] = (p.now, False)
-        for di, d in p.devs.items():
-            q = d.get('queue', [])
-            newclient = [a for a in q if a[1] != 0]
-            old = prevq.get(di, [])
-            if len([a for a in q if a[1] != 0]) > len([a for a in old if a[1] != 0]) or (newclient and newclient != [a for a in old if a[1] != 0][-len(newclient):]):
-                if di in last: last[di] = (last[di][0], True)
-            prevq[di] = q
 
 
 def p_c20(tr, V, st):
